@@ -3,6 +3,7 @@ package c10
 import (
 	"context"
 	"fmt"
+	"io"
 	"regexp"
 	"sort"
 	"strings"
@@ -10,6 +11,8 @@ import (
 
 	"github.com/atlassian/gostatsd"
 	"github.com/atlassian/gostatsd/pkg/statsd"
+	"github.com/sirupsen/logrus"
+	"github.com/spf13/viper"
 	"pgregory.net/rapid"
 
 	"verifharness/internal/ev"
@@ -20,6 +23,7 @@ import (
 )
 
 func TestMain(m *testing.M) {
+	logrus.SetOutput(io.Discard)
 	ev.C().Rule("rapid: 0..4 filters, each with 0..3 patterns per list from {exact, prefix*, !exact, !prefix*, regex:, !regex:} over a small name/tag alphabet, drop flags; static tag lists with duplicates and droppable tags; metric maps of all four types whose series differ only in droppable tags or host (forced collisions) and carry duplicate tags; events. Oracle: tag-stage model written from FILTERING.md + reference merge; pattern semantics against strings/regexp directly. Non-trivial = >= 2 filters with >= 1 satisfied and (a collision after dropping tags or an inverted pattern deciding the outcome)")
 	vt.Main(m)
 }
@@ -281,6 +285,42 @@ func TestTagStage(t *testing.T) {
 
 		sink := fakes.NewSink()
 		th := statsd.NewTagHandler(sink, gostatsd.Tags(append([]string(nil), static...)), filters)
+		if rapid.Bool().Draw(t, "filters-from-configuration") {
+			// the same filters the way the server gets them: a "filters" list naming "filter.<name>" blocks (FILTERING.md)
+			v := viper.New()
+			var names []string
+			blocks := map[string]interface{}{}
+			for i, sp := range specs {
+				n := fmt.Sprintf("f%d", i)
+				names = append(names, n)
+				b := map[string]interface{}{}
+				if len(sp.MatchMetrics) > 0 {
+					b["match-metrics"] = append([]string(nil), sp.MatchMetrics...)
+				}
+				if len(sp.ExcludeMetrics) > 0 {
+					b["exclude-metrics"] = append([]string(nil), sp.ExcludeMetrics...)
+				}
+				if len(sp.MatchTags) > 0 {
+					b["match-tags"] = append([]string(nil), sp.MatchTags...)
+				}
+				if len(sp.DropTags) > 0 {
+					b["drop-tags"] = append([]string(nil), sp.DropTags...)
+				}
+				if sp.DropMetric {
+					b["drop-metric"] = true
+				}
+				if sp.DropHost {
+					b["drop-host"] = true
+				}
+				blocks[n] = b
+			}
+			if rapid.Bool().Draw(t, "names-one-missing-block") {
+				names = append(names, "nosuchfilter") // named but not defined: logged and skipped
+			}
+			v.Set("filters", names)
+			v.Set("filter", blocks)
+			th = statsd.NewTagHandlerFromViper(v, sink, gostatsd.Tags(append([]string(nil), static...)))
+		}
 		th.DispatchMetricMap(context.Background(), gen.CopyMap(in))
 		maps, _ := sink.Snapshot()
 		if len(maps) > 1 {
